@@ -285,7 +285,7 @@ def check(res, drv_resp, cert_resp, case, rg, calls, used, size, fpots, pots, r_
                       f'convergence test: hazan_peng_shashua with damping {damping} did not reach feasibility 1e-6*total within {used} sweeps (cap {cap}): '
                       f'mean edge disagreement {last["pf"]!r}, total {total}, largest |message| {maxmsg:.3e}, cliques {cl}'
                       + (' (the potential of a non-maximal region has a -inf cell)' if shared_kill else ''), rp,
-                      key='hps:no-convergence' + (':impossible-cell-on-shared-subregion' if shared_kill else ':low-damping' if damping <= 0.1 else ':diverged-messages' if not (maxmsg < rggen.DIVERGED) else ''))
+                      key='hps:no-convergence' + (':impossible-cell-on-shared-subregion' if shared_kill else ':low-damping' if damping <= 0.2 else ':diverged-messages' if not (maxmsg < rggen.DIVERGED) else ''))
         ok = False          # the optimality clauses are about the converged state: nothing further is claimed for this run
     killed = [(c_, fd_, [i for i, v in enumerate(fl_) if v == -math.inf]) for c_, fd_, fl_ in fpots if any(v == -math.inf for v in fl_)]
     if killed:
@@ -342,7 +342,10 @@ def check(res, drv_resp, cert_resp, case, rg, calls, used, size, fpots, pots, r_
                       if set(where[0]) == set(where[1]) else 'hps:shared-subregion')
         ok = False
     # the same certificate evaluated by the Lean model on the implementation's messages and tables
-    if cert_resp is not None:
+    if cert_resp is not None and not (math.isfinite(D) and math.isfinite(F)):
+        # diverged messages (inf - inf in the dual value): the run was already reported as not converged; there is no certificate to compare
+        res.count('certificate not compared: non-finite dual / primal value (diverged messages)')
+    elif cert_resp is not None:
         if not cert_resp['ok']:
             res.violation('correspondence', 'hps_cert driver error ' + cert_resp['err'], dict(rp, stream='C17.hps_cert'), key='hps:driver')
         else:
@@ -418,7 +421,7 @@ def run(res, drv, tier, seed):
         generated = case is None
         case = case or make_case(r, max_cells)
         dom, cl, kind, total, damping, minimal = case
-        if generated and tier == 'quick' and damping <= 0.1:
+        if generated and tier == 'quick' and damping <= 0.2:
             ccap = min(ccap, 800)       # nearly undamped runs that do not converge (recorded finding) are not pursued to the full cap in the quick tier
         caps.append(ccap)
         probe = rggen.build_rg(dom, cl, total, convex=True, minimal=minimal)
